@@ -108,8 +108,13 @@ class Extracted:
         self.ob_tags = {}     # gen line number -> obligation tag
 
 
-def build(template_path, repo_root):
-    tmpl = open(template_path).read().splitlines()
+def build(template_path, repo_root, subst=None):
+    ttext = open(template_path).read()
+    # unit-level template parameters: literal token replacement (e.g. one template verified under
+    # several spec configurations)
+    for k, v in (subst or {}).items():
+        ttext = ttext.replace(k, v)
+    tmpl = ttext.splitlines()
     out_lines = []
     meta_fns = []
     meta_types = []
